@@ -328,6 +328,7 @@ class Daemon(object):
         """
         serializer_id = serializers.MarshalSerializer.serializer_id
         msg_seq = 0
+        current_context.response_annotations = {}
         try:
             msg = protocol.recv_stub(conn, [protocol.MSG_CONNECT])
             msg_seq = msg.seq
@@ -398,6 +399,7 @@ class Daemon(object):
             # log.info("error receiving data from client %s: %s", conn.sock.getpeername(), x)
             raise x
         try:
+            current_context.response_annotations = {}
             request_flags = msg.flags
             request_seq = msg.seq
             request_serializer_id = msg.serializer_id
